@@ -295,6 +295,8 @@ fn apply_strict(hunks: &[Hunk], old: &[u8], new: &[u8], radius: usize) -> Result
 struct Rendered {
     display: String,
     written: Vec<u8>,
+    /// the same diff rendered hunk by hunk (UnifiedDiffHunk Display / to_writer, concatenated)
+    hunkwise: Option<(String, Vec<u8>)>,
     /// the diff's ops are a valid script of the token slices (consuming ranges only)
     ops_valid: Result<(), String>,
 }
@@ -460,7 +462,18 @@ fn render<T: DiffableStr + ?Sized>(
                 }
             }
         }
-        Rendered { display, written, ops_valid }
+        let hunkwise = if !header {
+            let mut d = String::new();
+            let mut w = vec![];
+            for h in u.iter_hunks() {
+                d.push_str(&h.to_string());
+                h.to_writer(&mut w).unwrap();
+            }
+            Some((d, w))
+        } else {
+            None
+        };
+        Rendered { display, written, hunkwise, ops_valid }
     })
     .map_err(|p| format!("panic: {}", p))?;
     Ok((r, swaps))
@@ -540,6 +553,12 @@ pub fn check_pair(old: &[u8], new: &[u8], radii: &[usize]) -> Verdict {
                             render::<[u8]>(alg, old, new, radius, header, repair)?
                         };
                         let f = check_rendering(&r, old, new, radius, header, as_str.is_some())?;
+                        if let Some((d, w)) = &r.hunkwise {
+                            // the hunks rendered one by one are a rendering too: same oracle
+                            let hr = Rendered { display: d.clone(), written: w.clone(), hunkwise: None, ops_valid: Ok(()) };
+                            check_rendering(&hr, old, new, radius, false, as_str.is_some())
+                                .map_err(|e| format!("hunks rendered one by one (UnifiedDiffHunk Display / to_writer): {}", e))?;
+                        }
                         if kind == 0 {
                             // the one-call helper renders a unified diff as well: same oracle
                             let (a, b) = as_str.unwrap();
@@ -552,6 +571,7 @@ pub fn check_pair(old: &[u8], new: &[u8], radii: &[usize]) -> Verdict {
                             let hr = Rendered {
                                 written: s.as_bytes().to_vec(),
                                 display: s,
+                                hunkwise: None,
                                 ops_valid: Ok(()),
                             };
                             check_rendering(&hr, old, new, radius, header, true)
